@@ -442,6 +442,63 @@ class GuardFlow:
                 lk = self.len_key(t["args"][0])
                 if lk is not None:
                     st.refine(lk, IS.exact(0) if truth else IS.range(1, INF))
+            elif rn.split("::")[-1] == "contains" and "core::ops::range::Range" in rn and len(t["args"]) == 2:
+                # `(LO..=HI).contains(&x)` is the range pattern `LO..=HI` written as a call
+                rng = self._const_range(t["args"][0])
+                item = t["args"][1]
+                # &x, possibly reborrowed: `_a = &(*_b); _b = &_x`
+                tgt = None
+                for _ in range(4):
+                    d = self.fn.single_def(item["l"]) if is_place(item) and not proj(item) else None
+                    if not (d and d[2] == "assign" and d[3]["k"] == "ref"):
+                        break
+                    pp = d[3]["p"]
+                    if not proj(pp):
+                        tgt = pp
+                        break
+                    if proj(pp) != ["*"]:
+                        break
+                    item = {"l": pp["l"]}
+                if rng is not None and tgt is not None:
+                    lo, hi = rng
+                    s = IS.range(lo, hi) if truth else IS.range(-INF, lo - 1).union(IS.range(hi + 1, INF))
+                    for k in self.alias_chain(tgt):
+                        st.refine(k, s)
+
+    def _const_range(self, op):
+        """(lo, hi) inclusive when op is (a reference to) a range with constant bounds: RangeInclusive::new(a, b),
+        Range { start, end }"""
+        kind, payload, _ = self.res.root(op)
+        if kind == "const" and "promoted" in payload["c"]:
+            # `&(LO..=HI)` with constant bounds is promoted to a constant: read the promoted body
+            try:
+                pb = self.fn.j.get("promoted", [])[payload["c"]["promoted"]]
+            except IndexError:
+                pb = None
+            for b in (pb or {}).get("blocks", []):
+                t = b["t"]
+                if t["k"] == "call" and norm_name(callee_name(t) or "").endswith("RangeInclusive::new") and len(t["args"]) == 2 \
+                        and all(is_const(a) and const_val(a) is not None for a in t["args"]):
+                    return (const_val(t["args"][0]), const_val(t["args"][1]))
+                for st in b["s"]:
+                    rv = st.get("rv") or {}
+                    if rv.get("k") == "agg" and (rv.get("adt") or "").endswith("ops::range::Range") and len(rv["ops"]) == 2 \
+                            and all(is_const(o) and const_val(o) is not None for o in rv["ops"]):
+                        return (const_val(rv["ops"][0]), const_val(rv["ops"][1]) - 1)
+            return None
+        if kind == "call":
+            t = payload[1]
+            if norm_name(callee_name(t) or "").endswith("RangeInclusive::new") and len(t["args"]) == 2:
+                a, b = const_val(t["args"][0]) if is_const(t["args"][0]) else None, const_val(t["args"][1]) if is_const(t["args"][1]) else None
+                if a is not None and b is not None:
+                    return (a, b)
+        if kind == "agg":
+            rv = payload[2]
+            if (rv.get("adt") or "").endswith("ops::range::Range") and len(rv["ops"]) == 2 and all(is_const(o) for o in rv["ops"]):
+                a, b = const_val(rv["ops"][0]), const_val(rv["ops"][1])
+                if a is not None and b is not None:
+                    return (a, b - 1)
+        return None
 
     def edge_state(self, bb, st_out, succ):
         """state on edge bb->succ given state at end of bb (before terminator effects on edges)"""
